@@ -83,4 +83,23 @@ theorem src_interpolateAt (hull : List Pt) (i : Nat) (g : Rat) :
                        p0 := (b.x - g) / (b.x - a.x), op0 := a.op, p1 := 1 - (b.x - g) / (b.x - a.x), op1 := b.op }
          | _, _ => none) := rfl
 
+/-! ### the predict path (`Generated/ThresholderSrc.lean`) -/
+
+/-- operator ">" is `score > threshold`, operator "<" is `score < threshold` (strict, threshold on the right) -/
+theorem src_opGt_eq (s t : Rat) : ThresholderSrc.opGt s t = decide (t < s) := by
+  simp [ThresholderSrc.opGt]
+theorem src_opLt_eq (s t : Rat) : ThresholderSrc.opLt s t = decide (s < t) := by
+  simp [ThresholderSrc.opLt]
+
+/-- `_pmf_predict`: `p_ignore * prediction_constant + (1 - p_ignore) * (p0 * operation0(s) + p1 * operation1(s))` -/
+theorem src_ruleProb (r : Rule) (s : Rat) :
+    ruleProb r s =
+      (match r.ign with
+       | none => r.p0 * ind (r.op0.apply s) + r.p1 * ind (r.op1.apply s)
+       | some (pi, c) => pi * c + (1 - pi) * (r.p0 * ind (r.op0.apply s) + r.p1 * ind (r.op1.apply s))) := by
+  unfold ruleProb
+  cases r.ign with
+  | none => rfl
+  | some pc => rfl
+
 end Threshold
